@@ -20,7 +20,7 @@ SHARDS = {'quick': 16, 'thorough': 64}
 TIMEOUT = {'quick': 1500, 'thorough': 7200}
 MUST_HIT = ['Call.same-named-operations-of-two-classes', 'Call.name-differs-in-case-only-function', 'Call.name-differs-in-case-only-external-entity', 'Call.python-function', 'Call.python-bridge', 'Call.python-class-operation',
             'Call.derived-attribute-early-bare-return', 'Scope.local-named-like-parameter', 'Call.argument-order-observable', 'Call.earlier-component-rechecked', 'Call.builtin-external-entity', 'Call.legacy-keyword-bridge', 'Call.legacy-keyword-transform', 'Call.python-instance-operation', 'Call.derived-attribute', 'Call.derived-attribute-outside-state', 'Call.enumerator', 'Call.constant',
-            'Call.nested', 'Call.recursive', 'Call.bare-return', 'Call.no-return', 'Call.in-where-clause',
+            'Call.nested', 'Call.recursive', 'Call.return-inside-while-body', 'Call.return-inside-for-each-body', 'Call.bare-return', 'Call.no-return', 'Call.in-where-clause',
             'Call.in-loop-condition', 'Scope.caller-variable-kept', 'State.compared']
 MUST_REACH = ['bridgepoint/ooaofooa.py:mk_function', 'bridgepoint/ooaofooa.py:mk_bridge',
               'bridgepoint/ooaofooa.py:mk_external_entity', 'bridgepoint/ooaofooa.py:mk_operation',
@@ -98,6 +98,7 @@ def call_node(e, args, target=None):
 LEGACY = {}
 SHADOWED = [0]
 ARG_ORDER = [0]
+EARLY = {}
 PREVIOUS = []
 DER_FORMS = {}
 
@@ -421,6 +422,31 @@ class ModelGen(object):
                     stmts.append(oalsem.while_(cond, [oalsem.assign(oalsem.var(i),
                                                                     oalsem.bin_('+', oalsem.var(i), oalsem.lit(1)))]))
                     locals_[i] = INT
+        # a return inside a loop body leaves the whole body there: nothing after the loop runs, and the value is
+        # the one of that return, not of a later one
+        k = r.random()
+        if k < 0.3:
+            j = 'j%d' % rank
+            stmts.append(oalsem.assign(oalsem.var(j), oalsem.lit(0)))
+            early = oalsem.return_(None if e.ret is None else self.expr(e.ret, e, rank, 1, locals_))
+            stmts.append(oalsem.while_(
+                oalsem.bin_('<', oalsem.var(j), oalsem.lit(r.randint(1, 3))),
+                [oalsem.if_(oalsem.bin_('==', oalsem.var(j), oalsem.lit(r.randint(0, 2))), [early]),
+                 oalsem.assign(oalsem.var(j), oalsem.bin_('+', oalsem.var(j), oalsem.lit(1)))]))
+            locals_[j] = INT
+            EARLY['while'] = EARLY.get('while', 0) + 1
+            if e.ret is None:
+                stmts.append(oalsem.create('k', 'K'))
+        elif k < 0.5:
+            ks = 'ks%d' % rank
+            stmts.append(oalsem.select_from('many', ks, 'K'))
+            early = oalsem.return_(None if e.ret is None else self.expr(e.ret, e, rank, 1, locals_))
+            stmts.append(oalsem.for_each('kk', ks, [
+                oalsem.if_(oalsem.bin_(r.choice(('>=', '<', '==')), oalsem.attr(oalsem.var('kk'), 'N'),
+                                       oalsem.lit(r.choice((0, 1, 2, 5)))), [early])]))
+            EARLY['for-each'] = EARLY.get('for-each', 0) + 1
+            if e.ret is None:
+                stmts.append(oalsem.create('k', 'K'))
         # return form
         if e.ret is None:
             k = r.random()
@@ -806,3 +832,5 @@ def run(ctx):
     ctx.hit('Call.same-named-operations-of-two-classes', SAME_NAMED_OPS[0])
     ctx.hit('Call.argument-order-observable', ARG_ORDER[0])
     ctx.hit('Scope.local-named-like-parameter', SHADOWED[0])
+    for k, n in EARLY.items():
+        ctx.hit('Call.return-inside-%s-body' % k, n)
